@@ -9,9 +9,16 @@ the response cache, block-wise receive/send caches (`net/blockwise/blockwise.go`
 map (`udp/client/mutexmap.go`), the discovery tables (`udp/server/discover.go`).  Each site is classified by
 the removal the source pairs with it:
 
-* `bracket`   removed when the function that inserted it returns, on every path (deferred call, closure
-              appended to `closeFns` that the callers defer, cancel closure handed to the caller,
-              `defer l.Unlock()` with a reference count);
+* `bracket`   removed when the function that inserted it returns, on every path (deferred call; closure
+              appended to `closeFns` — counted only if the extractor also finds `defer closeFn()` in *every*
+              caller of the inserting function, which is the case for `writeMessage` and `writeMessageAsync`:
+              an asynchronously written confirmable message loses its entry when the write returns, it does
+              not rely on the sweep; `defer l.Unlock()` with a reference count);
+* `handle`    removed by a cancel closure that the inserting function *returns to its caller* (`AsyncPing`):
+              the source guarantees the removal only if that caller invokes the closure.  The library's own
+              caller `Client.Ping` defers it (`Generated.TableShape.pingDefersCancel`, read from the AST); an
+              application that calls `AsyncPing` directly carries the obligation itself.  In the entry machine
+              "the exchange returns" (`finish`) for a handle site *means* that the closure has been invoked;
 * `expiring`  stored in an expiring cache with a deadline; removed by the housekeeping tick after it;
 * `bracketExpiring` both;
 * `live`      removed by an error-guarded deferred clean-up when the registering call fails, kept while
@@ -19,25 +26,31 @@ the removal the source pairs with it:
 
 `TState` is the multiset of entries; `TEvent`s are insertion, early removal (first match, completed
 transfer), return of an exchange, cancellation of a live registration and the housekeeping tick.
+The machine does **not** forbid an insertion on behalf of an exchange that has already returned or been
+cancelled (a deferred delete followed by an asynchronous re-insert, e.g. from a receive path): such an entry
+simply stays.  That this does not happen is the explicit hypothesis `WellTimed` of the theorems, and the
+harness asserts it on the real code (no table grows when a peer message for an ended exchange is processed).
 Two small separate models follow the reference-counted lock map and the limiter's endpoint entries.
 -/
 namespace CoapVerif.Model.Tables
 open CoapVerif.Generated.TableShape
 
-inductive Cls | bracket | expiring | bracketExpiring | live
+inductive Cls | bracket | handle | expiring | bracketExpiring | live
   deriving Repr, DecidableEq
 
 def isBracketTag (x : String) : Bool :=
-  x == "defer" || x.startsWith "closeFns:" || x.startsWith "caller-defer:" || x == "returned-closure" || x == "defer-unlock"
+  x == "defer" || x.startsWith "closeFns:" || x.startsWith "caller-defer:" || x == "defer-unlock"
 
 /-- classification of a site by the removals the extractor found; `none` = nothing pairs with the insertion -/
 def classify (removal : List String) : Option Cls :=
   let br := removal.any isBracketTag
   let ex := removal.contains "expiry"
   let lv := removal.any (·.startsWith "errdefer:")
+  let hd := removal.contains "returned-closure"
   if lv then some .live
   else if br && ex then some .bracketExpiring
   else if br then some .bracket
+  else if hd then some .handle
   else if ex then some .expiring
   else none
 
@@ -54,15 +67,25 @@ def expectedBrackets : List (String × String) := [
   ("BlockWise.Do", "sendingMessagesCache"),
   ("LimitParallelRequests.acquireEndpoint", "endpointQueues"),
   ("Conn.doInternal", "tokenHandlerContainer"),
-  ("Conn.AsyncPing", "tokenHandlerContainer"),
   ("Conn.prepareWriteMessage", "midHandlerContainer"),
-  ("Conn.AsyncPing", "midHandlerContainer"),
   ("MutexMap.Lock", "ma"),
   ("Server.DiscoveryRequest", "multicastRequests"),
   ("Server.DiscoveryRequest", "multicastHandler")]
 
+/-- the sites whose removal is a cancel closure handed to the caller: (function, table) -/
+def expectedHandles : List (String × String) := [
+  ("Conn.AsyncPing", "tokenHandlerContainer"),
+  ("Conn.AsyncPing", "midHandlerContainer")]
+
 def isBracketCls : Option Cls → Bool
   | some .bracket => true | some .bracketExpiring => true | _ => false
+
+/-- the handle sites are handles, and the library's own user of them (`Client.Ping`) defers the closure -/
+def handleSitesAgreeB : Bool :=
+  expectedHandles.all (fun p =>
+    sites.any (fun s => s.func == p.1 && s.table == p.2) &&
+    (sites.filter (fun s => s.func == p.1 && s.table == p.2)).all (fun s => classify s.removal == some .handle)) &&
+  pingDefersCancel
 
 /-- every site with one of these (function, table) pairs is a bracket, and each pair occurs -/
 def bracketSitesAgreeB : Bool :=
@@ -92,8 +115,9 @@ inductive TEvent
   | tick (now : Int)
   deriving Repr, DecidableEq
 
+/-- removed when the exchange returns (for a handle site: when the holder invokes the closure, see above) -/
 def isBracket : Option Cls → Bool
-  | some .bracket => true | some .bracketExpiring => true | _ => false
+  | some .bracket => true | some .bracketExpiring => true | some .handle => true | _ => false
 def isExpiring : Option Cls → Bool
   | some .expiring => true | some .bracketExpiring => true | _ => false
 def isLive : Option Cls → Bool
@@ -101,9 +125,8 @@ def isLive : Option Cls → Bool
 
 def tstep (s : TState) : TEvent → TState
   | .insert site key owner deadline =>
-    -- register-if-absent; an exchange that has already returned inserts nothing
-    if s.ended.contains owner || s.cancelled.contains owner then s
-    else if s.entries.any (fun e => e.site == site && e.key == key) then s
+    -- register-if-absent (whoever the owner is, whenever it happens)
+    if s.entries.any (fun e => e.site == site && e.key == key) then s
     else { s with entries := ⟨site, key, owner, deadline⟩ :: s.entries }
   | .consume site key => { s with entries := s.entries.filter (fun e => !(e.site == site && e.key == key)) }
   | .finish owner ok =>
@@ -119,13 +142,22 @@ def tstep (s : TState) : TEvent → TState
 
 def trun (evs : List TEvent) : TState := evs.foldl tstep {}
 
+/-- **No insertion after the owner returned**: in the history `evs` continued from state `s`, every insertion is made on
+    behalf of an exchange that has neither returned nor been cancelled at that moment. -/
+def WellTimed : TState → List TEvent → Prop
+  | _, [] => True
+  | s, e :: es =>
+    (match e with
+     | .insert _ _ owner _ => owner ∉ s.ended ∧ owner ∉ s.cancelled
+     | _ => True) ∧ WellTimed (tstep s e) es
+
 /-- number of entries of one table (by the table's field name) -/
 def tableSize (s : TState) (table : String) : Nat :=
   (s.entries.filter (fun e => match sites[e.site]? with | some i => i.table == table | none => false)).length
 
 /-- tables all of whose sites are brackets: their size is bounded by the work in progress at every moment -/
 def bracketOnly (table : String) : Bool :=
-  (sites.filter (·.table == table)).all (fun s => classify s.removal == some .bracket) &&
+  (sites.filter (·.table == table)).all (fun s => classify s.removal == some .bracket || classify s.removal == some .handle) &&
   (sites.any (·.table == table))
 
 /-! ### The reference-counted lock map (`udp/client/mutexmap.go`) -/
